@@ -13,6 +13,7 @@ import (
 	"encoding/json"
 	"fmt"
 	"hash/fnv"
+	"net"
 	"reflect"
 	"runtime"
 	"sort"
@@ -109,6 +110,49 @@ type runner struct {
 	w      *srvkit.World
 	nonces map[string][]string // per connection: challenges received, in order (index = position + 1)
 	oldKey map[string]string   // per client: the secret that a reset replaced (the first holder still has it)
+	form   string              // peer address form of the behaviour's transports ("" = "v4")
+}
+
+// peer is the address the transport of the i-th connection reports, and the plain address list / ban entries name.
+func peer(form string, i int) (net.Addr, string) {
+	port := 40000 + i
+	switch form {
+	case "v6":
+		ip := fmt.Sprintf("2001:db8::%x", i+1)
+		return &net.TCPAddr{IP: net.ParseIP(ip), Port: port}, ip
+	case "v6zone":
+		ip := fmt.Sprintf("fe80::%x", i+1)
+		return &net.TCPAddr{IP: net.ParseIP(ip), Port: port, Zone: "eth0"}, ip
+	case "v4mapped":
+		ip := fmt.Sprintf("10.9.0.%d", i+1)
+		return &net.TCPAddr{IP: net.ParseIP("::ffff:" + ip), Port: port}, ip
+	case "udp4":
+		ip := fmt.Sprintf("10.9.0.%d", i+1)
+		return &net.UDPAddr{IP: net.ParseIP(ip).To4(), Port: port}, ip
+	case "udp6zone":
+		ip := fmt.Sprintf("fe80::%x", i+1)
+		return &net.UDPAddr{IP: net.ParseIP(ip), Port: port, Zone: "eth0"}, ip
+	}
+	ip := fmt.Sprintf("10.9.0.%d", i+1)
+	return &net.TCPAddr{IP: net.ParseIP(ip), Port: port}, ip
+}
+
+// ip is the plain address of the named connection (what the operator puts on a list); rangeOf a range covering just it.
+func (r *runner) ip(name string) string {
+	for i, n := range r.w.ConnNames {
+		if n == name {
+			_, ip := peer(r.form, i)
+			return ip
+		}
+	}
+	return "10.9.250.1"
+}
+
+func rangeOf(ip string) string {
+	if strings.Contains(ip, ":") {
+		return ip + "/128"
+	}
+	return ip + "/32"
 }
 
 func (r *runner) nonceIndex(c, ch string) int {
@@ -130,7 +174,15 @@ func (r *runner) post() map[string]any {
 		if v.InControl {
 			cid = w.ClientName(v.ClientID)
 		}
-		conns[n] = map[string]any{"authd": v.Authd, "cid": cid}
+		// rawcid: the identity the connection object carries whether or not it is authenticated (what consumers of
+		// GetClientID / GetClientIDByConnectionID see)
+		raw := "none"
+		if v.ClientID != 0 {
+			raw = w.ClientName(v.ClientID)
+		} else if v.ClientOf != 0 {
+			raw = w.ClientName(v.ClientOf)
+		}
+		conns[n] = map[string]any{"authd": v.Authd, "cid": cid, "rawcid": raw}
 	}
 	lookup := map[string]any{}
 	for _, x := range w.ClientNames {
@@ -199,7 +251,7 @@ func (r *runner) msg(o opT) (fw.Event, string, string) {
 		return nil, "", "the server closed " + o.C + " earlier than the model expects"
 	}
 	ev := fw.Event{"ev": "Msg", "c": o.C, "k": o.K, "id": o.ID, "type": o.Type, "key": "garbage", "over": 0}
-	banBefore := banRecord(w.S, w.IP(o.C))
+	banBefore := banRecord(w.S, r.ip(o.C))
 	var resp *packet.HandshakeResponse
 	var err error
 	newid := "none"
@@ -278,7 +330,7 @@ func (r *runner) msg(o opT) (fw.Event, string, string) {
 		}
 	}
 	ev["out"] = out
-	ev["newban"] = newBan(banBefore, banRecord(w.S, w.IP(o.C))) // did the protector ban the address on this message?
+	ev["newban"] = newBan(banBefore, banRecord(w.S, r.ip(o.C))) // did the protector ban the address on this message?
 	w.S.Reap()
 	ev["post"] = r.post()
 	return ev, class, ""
@@ -312,8 +364,12 @@ func drive(env *fw.Env, b fw.Behaviour) *fw.Trace {
 	}
 	defer s.Close()
 	r := &runner{w: srvkit.NewWorld(s, keys(ops[0].Exp.Auth), keys(ops[0].Exp.Idx)), nonces: map[string][]string{}, oldKey: map[string]string{}}
-	for _, n := range r.w.ConnNames { // Session_c03*.cfg: PreAccept = TRUE
-		if _, err := r.w.Accept(n); err != nil {
+	if ops[0].Op == "Form" { // the address form is chosen before the connections exist
+		r.form = ops[0].How
+	}
+	for i, n := range r.w.ConnNames { // Session_c03*.cfg: PreAccept = TRUE
+		addr, ip := peer(r.form, i)
+		if _, err := r.w.AcceptAddr(n, addr, ip); err != nil {
 			return &fw.Trace{Status: fw.DriverError, Note: err.Error()}
 		}
 	}
@@ -336,14 +392,14 @@ func drive(env *fw.Env, b fw.Behaviour) *fw.Trace {
 			switch how {
 			case "", "temp":
 				how = "temp"
-				s.Ban(r.w.IP(o.C), time.Hour)
+				s.Ban(r.ip(o.C), time.Hour)
 			case "perm":
-				s.Ban(r.w.IP(o.C), 0)
+				s.Ban(r.ip(o.C), 0)
 			case "lapsed":
 				const brief = 30 * time.Millisecond
-				s.Ban(r.w.IP(o.C), brief)
+				s.Ban(r.ip(o.C), brief)
 				time.Sleep(3 * brief)
-				if rec := banRecord(s, r.w.IP(o.C)); rec != nil && !time.Now().After(rec.ExpiresAt) {
+				if rec := banRecord(s, r.ip(o.C)); rec != nil && !time.Now().After(rec.ExpiresAt) {
 					return &fw.Trace{Status: fw.DriverError, Note: "a 30 ms ban is still running after 90 ms"}
 				}
 			default:
@@ -351,7 +407,7 @@ func drive(env *fw.Env, b fw.Behaviour) *fw.Trace {
 			}
 			ev = fw.Event{"ev": "Env", "k": "Ban", "c": o.C, "id": "none", "how": how}
 		case "Unban":
-			s.Brute.UnbanIP(r.w.IP(o.C))
+			s.Brute.UnbanIP(r.ip(o.C))
 			ev = fw.Event{"ev": "Env", "k": "Unban", "c": o.C, "id": "none"}
 		case "Cleanup":
 			// one tick of the two background clean-ups (what their one-minute tickers run)
@@ -361,21 +417,26 @@ func drive(env *fw.Env, b fw.Behaviour) *fw.Trace {
 		case "Blacklist":
 			// temporary entry (does not run out within the behaviour), permanent entry (duration 0),
 			// permanent range entry covering exactly this address
-			ip, d := r.w.IP(o.C), time.Duration(0)
+			ip, d := r.ip(o.C), time.Duration(0)
 			switch o.How {
 			case "temp", "":
 				d = time.Hour
 			case "cidr":
-				ip += "/32"
+				ip = rangeOf(ip)
 			}
 			if err := s.Blacklist(ip, d); err != nil {
 				return &fw.Trace{Status: fw.DriverError, Note: err.Error()}
 			}
 			ev = fw.Event{"ev": "Env", "k": "Blacklist", "c": o.C, "id": "none", "how": o.How}
+		case "Form":
+			if i != 0 {
+				return &fw.Trace{Status: fw.DriverError, Note: "Form is not the first operation"}
+			}
+			ev = fw.Event{"ev": "Env", "k": "Form", "c": "none", "id": "none", "how": o.How}
 		case "Whitelist":
-			ip := r.w.IP(o.C)
+			ip := r.ip(o.C)
 			if o.How == "cidr" {
-				ip += "/32"
+				ip = rangeOf(ip)
 			}
 			if err := s.Whitelist(ip); err != nil {
 				return &fw.Trace{Status: fw.DriverError, Note: err.Error()}
@@ -550,7 +611,7 @@ func driveCleanupRace(env *fw.Env, b fw.Behaviour) *fw.Trace {
 	if ev, _, why := r.msg(opT{Op: "Msg", C: "c2", K: "FC", ID: "none", Type: "control"}); !add(ev, why) {
 		return t
 	}
-	ip := r.w.IP("c1")
+	ip := r.ip("c1")
 	// an old temporary ban of c1's address whose duration has run out; nobody asked IsBanned since,
 	// so the record is still in the table (3x margin on the duration)
 	const oldBan = 40 * time.Millisecond
@@ -675,6 +736,19 @@ func selfTest(env *fw.Env, acc []*fw.Trace) []*fw.Trace {
 			if e["ev"] != "Msg" {
 				continue
 			}
+			// 8. a refused message leaves an identity nobody proved on an unauthenticated connection
+			if !done[8] && !e["out"].(map[string]any)["success"].(bool) {
+				for cn, v := range e["post"].(map[string]any)["conns"].(map[string]any) {
+					if m := v.(map[string]any); m["authd"] == false && m["rawcid"] == "none" {
+						done[8] = true
+						add(8, t, func(evs []fw.Event) []fw.Event {
+							evs[i]["post"].(map[string]any)["conns"].(map[string]any)[cn].(map[string]any)["rawcid"] = "Z"
+							return evs
+						})
+						break
+					}
+				}
+			}
 			// 7. a legal re-handshake of an authenticated connection (phase 1 for its own id, then the right response)
 			// turned into a phase 2 that names another known client under that client's own key: the connection
 			// flips to that client and becomes its control channel
@@ -772,7 +846,7 @@ func selfTest(env *fw.Env, acc []*fw.Trace) []*fw.Trace {
 				}
 			}
 		}
-		if len(out) >= 42 {
+		if len(out) >= 48 {
 			break
 		}
 	}
@@ -832,6 +906,8 @@ func main() {
 					job("protector life-cycle (ban kinds, clean-up tick) depth 8", "Session_c03ban.cfg", "8", 0),
 					job("credential lifetime (expiry, binding, deletion) depth 10", "Session_c03cred.cfg", "10", 0),
 					job("messages alone, both types, depth 9", "Session_c03msg.cfg", "9", 0),
+					job("messages alone, three connections, depth 7", "Session_c03msg3.cfg", "7", 0),
+					job("peer address forms depth 7", "Session_c03form.cfg", "7", 0),
 					job("all environment actions depth 6", "Session_c03env.cfg", "6", 0),
 				})
 			}
@@ -856,6 +932,8 @@ func main() {
 					gen("gen:ban", "Session_c03ban.cfg", "5"),
 					gen("gen:cred", "Session_c03cred.cfg", "7"),
 					gen("gen:msg", "Session_c03msg.cfg", "5"),
+					gen("gen:msg3", "Session_c03msg3.cfg", "5"),
+					gen("gen:form", "Session_c03form.cfg", "5"),
 					gen("gen:transitions 2x2", "Session_c03.cfg", "6"),
 					gen("gen:transitions 3x3", "Session_c03t.cfg", "4"),
 					{Name: "gen:simulate env", Module: "Session", Cfg: "Session_c03env.cfg", Workers: 4, Simulate: "num=4000", Depth: 15, Seed: env.Seed,
@@ -868,6 +946,8 @@ func main() {
 				gen("gen:ban", "Session_c03ban.cfg", "4"),
 				gen("gen:cred", "Session_c03cred.cfg", "5"), // small: driven completely (also model-checked to that depth by the same run)
 				gen("gen:msg", "Session_c03msg.cfg", "4"),   // likewise: every message class on fresh and on authenticated connections
+				gen("gen:msg3", "Session_c03msg3.cfg", "4"), // likewise: three connections (a fresh one beside two authenticated ones)
+				gen("gen:form", "Session_c03form.cfg", "4"),
 				gen("gen:transitions 2x2", "Session_c03.cfg", "5"),
 				{Name: "gen:simulate env", Module: "Session", Cfg: "Session_c03env.cfg", Workers: 4, Simulate: "num=600", Depth: 11, Seed: env.Seed,
 					Consts: map[string]string{"FIXES": fixes, "LEVEL": "10", "EMIT": `"last"`}},
@@ -876,9 +956,9 @@ func main() {
 		// the short environment graphs are driven completely in the thorough tier; the big graphs are sampled
 		MaxBehSrc: func(env *fw.Env, src string) int {
 			if env.Tier == "thorough" {
-				return map[string]int{"gen:ban": 30000, "gen:transitions 2x2": 30000, "gen:transitions 3x3": 12000, "gen:simulate env": 30000}[src]
+				return map[string]int{"gen:ban": 30000, "gen:form": 30000, "gen:transitions 2x2": 30000, "gen:transitions 3x3": 12000, "gen:simulate env": 30000}[src]
 			}
-			return map[string]int{"gen:addr": 3500, "gen:key": 2500, "gen:ban": 3500, "gen:transitions 2x2": 2500, "gen:simulate env": 1500}[src]
+			return map[string]int{"gen:addr": 3000, "gen:key": 2500, "gen:ban": 3000, "gen:form": 3000, "gen:transitions 2x2": 2000, "gen:simulate env": 1500}[src]
 		},
 		// thorough: every behaviour that re-creates the address manager is driven over both value shapes of the store
 		Expand: func(env *fw.Env, src string, d json.RawMessage) []json.RawMessage {
@@ -906,6 +986,7 @@ func main() {
 		Rule: "one behaviour per transition (state, message) of the Session handshake state graph to the depth bound (seeded sample when capped) plus random deep message sequences, " +
 			"each replayed on the real ServerAuthHandler/SessionManager; non-trivial = at least 3 messages/environment actions",
 		Assumptions: []string{
+			"peer address forms: the fake transports report *net.TCPAddr (IPv4, IPv6, IPv6 with zone eth0, IPv4-mapped IPv6) or *net.UDPAddr (IPv4, IPv6 with zone); list and ban entries name the plain address or a /32 resp. /128 range over it",
 			"every connection has its own remote address; bans and list entries are applied through BruteForceProtector.BanIP / IPManager.AddToBlacklist / AddToWhitelist (temporary = 1 h, permanent, /32 range)",
 			"a restart / another node is the IPManager re-created on the same storage (as SecurityComponent.Initialize does) and a new auth handler around it; the other components keep running; the store hands the persisted records back as bytes or as strings",
 			"an address on both lists is not 'blacklisted' for the judge (the statement is silent; the code lets the whitelist win); a ban of the protector bars it all the same",
